@@ -441,3 +441,84 @@ package exec
 //@   loop 1 invariant forall(i, 0, len(slices), !isResultSlice(slices[i]) && slices[i] != nil)
 //@   loop 1 invariant implies(len(slices) == 0, slice == arg0) && implies(len(slices) > 0, slices[0] == arg0 && pipeLink(slices[len(slices)-1], slice))
 //@   loop 1 invariant forall(i, 0, len(slices) - 1, pipeLink(slices[i], slices[i+1]))
+
+// ---- C08: partitioning configuration, compile environment, name minting ----
+
+//@ spec func partN(n int) int = ite(n == 0, 1, n)
+
+//@ func exec.partitioner.IsShuffle
+//@   ensures result == (p.numPartition != 0)
+//@   modifies nothing
+//@ func exec.partitioner.NumPartition
+//@   ensures result == partN(p.numPartition)
+//@   modifies nothing
+//@ func exec.partitioner.Partitioner
+//@   ensures implies(p.partitioner != nil, result == p.partitioner) && result != nil
+//@   ensures default: implies(p.partitioner == nil, result == defaultPartitioner)
+//@   modifies nothing
+
+//@ func exec.CompileEnv.MarkCached (n, opIdx)
+//@   requires e.Cached != nil
+//@   panics_if !e.Writable
+//@   ensures marked: has(e.Cached, taskOp{n, opIdx}) && e.Cached[taskOp{n, opIdx}]
+//@   ensures others-kept: forall(k, taskOp, implies(k != taskOp{n, opIdx}, has(e.Cached, k) == old(has(e.Cached, k)) && e.Cached[k] == old(e.Cached[k])))
+//@   modifies e.Cached[:]
+//@ func exec.CompileEnv.IsCached (n, opIdx)
+//@   ensures result == e.Cached[taskOp{n, opIdx}]
+//@   modifies nothing
+//@ func exec.(*CompileEnv).Freeze
+//@   requires e != nil
+//@   ensures !e.Writable && e.Cached == old(e.Cached)
+//@   modifies e.Writable
+//@ func exec.CompileEnv.IsWritable
+//@   ensures result == e.Writable
+//@   modifies nothing
+
+//@ func exec.taskNamer.New (name)
+//@   requires n != nil
+//@   ensures counted: n[name] == old(n[name]) + 1
+//@   ensures others-kept: forall(k, string, implies(k != name, has(n, k) == old(has(n, k)) && n[k] == old(n[k])))
+//@   ensures first-is-plain: implies(old(n[name]) == 0, result == name)
+//@   modifies n[:]
+
+// ---- C08: the compiler proper ----
+
+//@ spec func sameTasks(a, b []*Task) bool = a.arr == b.arr && a.off == b.off && len(a) == len(b)
+//@ spec func memoable(part partitioner) bool = funcIsNil(part.Combiner) && part.partitioner == nil
+//@ spec func taskShape(t *Task, s bigslice.Slice, n int) bool = t != nil && allocated(t) && t.NumPartition == partN(n) && t.Type == s
+//@ spec func namesOK(ts []*Task) bool = forall(i, 0, len(ts), ts[i].Name.Shard == i && ts[i].Name.NumShard == len(ts) && ts[i].Name.Op == ts[0].Name.Op && ts[i].Name.InvIndex == ts[0].Name.InvIndex)
+//@ spec func compiledOK(ts []*Task, s bigslice.Slice, n int) bool = implies(!isResultSlice(s), len(ts) == slNumShard(s)) && implies(!isResultSlice(s) || n != 0, forall(i, 0, len(ts), taskShape(ts[i], s, n)) && namesOK(ts))
+//@ spec func memoOK(c *compiler) bool = forall(k, memoKey, implies(has(c.memo, k), (c.memo[k].arr == 0 || allocated(c.memo[k].arr)) && compiledOK(c.memo[k], k.slice, k.numPartition)))
+
+// The memo is keyed by the slice itself (not what it wraps) and by the partition count as configured (0 = not a
+// shuffle): a compiled task set is reused only for exactly that use. Every task set handed out for a slice that is
+// not a reused result has one task per shard, each writing partN(numPartition) partitions of the slice's own type;
+// a set compiled for a shuffle consumer is one phase group.
+//@ spec func ownTask(t *Task, s bigslice.Slice, part partitioner, op string, inv uint64, j int, cnt int) bool = fresh(t) && taskShape(t, s, part.numPartition) && t.Name.Shard == j && t.Name.NumShard == cnt && t.Name.Op == op && t.Name.InvIndex == inv && t.Combiner == part.Combiner && t.CombineKey == part.CombineKey && t.Partitioner == ite(part.partitioner == nil, defaultPartitioner, part.partitioner)
+//@ spec func depsFresh(ts []*Task) bool = forall(j, 0, len(ts), ts[j].Deps == nil || fresh(ts[j].Deps.arr))
+//@ spec func memoGrown(c *compiler) bool = forall(k, memoKey, implies(old(has(c.memo, k)), has(c.memo, k) && sameTasks(c.memo[k], old(c.memo[k]))))
+//@ func exec.(*compiler).compile (slice, part) (tasks, err)
+//@   requires c != nil && slice != nil && c.memo != nil && c.namer != nil && c.inv.Env.Cached != nil && part.numPartition >= 0
+//@   requires memo-ok: memoOK(c)
+//@   may_panic
+//@   ensures  tasks-or-error: implies(err != nil, len(tasks) == 0)
+//@   ensures  shape: implies(err == nil, compiledOK(tasks, slice, part.numPartition))
+//@   ensures  partitioning: implies(err == nil && (!isResultSlice(slice) || part.numPartition != 0) && !memoable(part), forall(i, 0, len(tasks), tasks[i].Combiner == part.Combiner && tasks[i].CombineKey == part.CombineKey && tasks[i].Partitioner == ite(part.partitioner == nil, defaultPartitioner, part.partitioner)))
+//@   ensures  memo-hit: implies(memoable(part) && old(has(c.memo, memoKey{slice, part.numPartition})), err == nil && sameTasks(tasks, old(c.memo[memoKey{slice, part.numPartition}])))
+//@   ensures  memo-store: implies(memoable(part) && err == nil, has(c.memo, memoKey{slice, part.numPartition}) && sameTasks(c.memo[memoKey{slice, part.numPartition}], tasks))
+//@   ensures  memo-grows: forall(k, memoKey, implies(old(has(c.memo, k)), has(c.memo, k) && sameTasks(c.memo[k], old(c.memo[k]))))
+//@   ensures  memo-ok: memoOK(c)
+//@   ensures  new-group: implies(err == nil && part.numPartition != 0 && !(memoable(part) && old(has(c.memo, memoKey{slice, part.numPartition}))), forall(i, 0, len(tasks), sameTasks(tasks[i].Group, tasks)))
+//@   ensures  reused-result: implies(err == nil && isResultSlice(slice) && part.numPartition == 0 && !(memoable(part) && old(has(c.memo, memoKey{slice, part.numPartition}))), sameTasks(tasks, unbox(slUnwrap(slice), *Result).tasks))
+//@   modifies c.memo[:], c.namer[:], c.inv.Env.Cached[:]
+//@   loop 2 invariant len(tasks) == len(result.tasks) && fresh(tasks) && memoOK(c)
+//@   loop 2 invariant forall(j, 0, range_idx, ownTask(tasks[j], slice, part, shuffleOpName, c.inv.Index, j, len(tasks))) && forall(j, range_idx, len(tasks), tasks[j] == nil)
+//@   loop 3 invariant -1 <= i && i < len(slices) && fresh(ops) && (pragmas == nil || fresh(pragmas))
+//@   loop 4 invariant len(tasks) == slNumShard(slice) && fresh(tasks) && memoOK(c)
+//@   loop 4 invariant forall(j, 0, range_idx, ownTask(tasks[j], slice, part, opName, c.inv.Index, j, len(tasks)) && tasks[j].Deps == nil) && forall(j, range_idx, len(tasks), tasks[j] == nil)
+//@   loop 5 invariant 0 <= i && memoOK(c) && memoGrown(c) && depsFresh(tasks)
+//@   loop 5 invariant forall(j, 0, len(tasks), ownTask(tasks[j], slice, part, opName, c.inv.Index, j, len(tasks)))
+//@   loop 6 invariant depsFresh(tasks)
+//@   loop 7 invariant depsFresh(tasks)
+//@   loop 11 invariant forall(j, 0, len(tasks), tasks[j] == nil || fresh(tasks[j]))
+//@   loop 12 invariant forall(j, 0, len(tasks), tasks[j] == nil || fresh(tasks[j])) && forall(j, 0, range_idx, sameTasks(tasks[j].Group, tasks))
